@@ -31,7 +31,12 @@ func NewProvider(fs afero.Fs, conf config.Config) (core.Provider, error) {
 	if err != nil {
 		return nil, xerrors.Errorf("cant create ReadSeekCloser: %w", err)
 	}
-	decoder, err := decoders.NewDecoder(conf, readSeeker)
+	decoderConf := conf
+	if len(conf.ChosenCases) > 0 {
+		// The limit counts delivered entries: with chosencases the provider applies it after filtering.
+		decoderConf.Limit = 0
+	}
+	decoder, err := decoders.NewDecoder(decoderConf, readSeeker)
 	if err != nil {
 		return nil, xerrors.Errorf("decoder init error: %w", err)
 	}
